@@ -1,3 +1,4 @@
-// C09 harness, label type std::string (see c09_tree.cpp)
+// C09 secondary harness binary, label type std::string (see c09_tree.cpp / c09_forest.hpp)
 #include "c09_run.hpp"
-int c09_run_str(std::string const &mode, int argc, char **argv) { return c09::run<std::string>(mode, argc, argv); }
+
+int main(int argc, char **argv) { return c09::main_for<std::string>(argc, argv); }
